@@ -37,6 +37,16 @@ def bounded_task():
     return Task(f"{PROP}.Bd.project", PROP, "real pipeline", run)
 
 
+def _handler():
+    from bounded import c20
+    c = containment.handler_block(PROP)
+    c.search_fn = c20.search
+    return c
+
+
+_handler.__name__ = "per_file_handler"
+
+
 def build(tier, seed):
     set_tier(tier)
     def _mk(f):
@@ -47,7 +57,7 @@ def build(tier, seed):
     # termination: the loop variants of the scanners / readers are part of their contracts (re-used here under C20's id)
     tasks = [Task(f"{PROP}.S.containment", PROP, "exception containment", _replay(containment.obligations)),
              a_task(PROP, _mk(scanners.unterminated)), a_task(PROP, _mk(scanners.quote_split)), a_task(PROP, _mk(scanners.paren_split)), a_task(PROP, _mk(scanners.get_parens)),
-             a_task(PROP, _mk(docstrings.read_docstring)), a_task(PROP, _mk(readerblocks.continuation)), bounded_task()]
+             a_task(PROP, _mk(docstrings.read_docstring)), a_task(PROP, _mk(readerblocks.continuation)), a_task(PROP, _handler), bounded_task()]
     meta = {
         "trusted_base": TRUSTED_BASE,
         "assumptions": PYVC_ASSUMPTIONS + [
@@ -55,7 +65,7 @@ def build(tier, seed):
             "finite stream per iteration (block contract on the continuation part only; the outer loop's variant is not proved)",
             "module-level state shared across files (the NameSelector, regex caches) is not modelled: only 'identifiers are allocated after a file has been parsed completely' (C12) is checked",
         ],
-        "functions_under_contract": fn_meta([("ford.fortran_project", "Project._fortran_file", "AST-level exceptional frame"), ("ford.fortran_project", "Project.__init__", "AST-level handler shape"),
+        "functions_under_contract": fn_meta([("ford.fortran_project", "Project._fortran_file", "AST-level exceptional frame"), ("ford.fortran_project", "Project.__init__", "AST-level handler shape; block contract on the handler body (message building kept for its safety obligations)"),
                                              ("ford.reader", "_contains_unterminated_string", None), ("ford.utils", "quote_split", None), ("ford.utils", "paren_split", None),
                                              ("ford.utils", "get_parens", None), ("ford.sourceform", "read_docstring", None)]),
         "unverified_surroundings": ["equality of the other files' documentation is a differential statement: bounded stand-in only", "regex matching time (no ambiguity analysis was built)",
